@@ -613,3 +613,8 @@ MUTATIONS += [
     dict(id="C18-init-creates-before-validating", prop="C18", file=INIF, old="    config_opts.apply(&mut config)?;\n\n    let (key, key_id) = init_with_config(repo, credentials, key_opts, &config)?;", new="    let (key, key_id) = init_with_config(repo, credentials, key_opts, &config)?;\n    config_opts.apply(&mut config)?;\n"),
     dict(id="C18-init-ignores-refusal", prop="C18", file=INIF, old="    config_opts.apply(&mut config)?;\n\n    let (key, key_id)", new="    _ = config_opts.apply(&mut config);\n\n    let (key, key_id)"),
 ]
+
+MUTATIONS += [
+    dict(id="C03-prune-repacker-error-swallowed", prop="C03", file=PR, old="        _ = data_repacker.finalize()?;\n        indexer.write().unwrap().finalize()?;", new="        _ = data_repacker.finalize();\n        indexer.write().unwrap().finalize()?;"),
+    dict(id="C03-copy-blobs-finalize-error-swallowed", prop="C03", file="crates/core/src/commands/copy.rs", old="    _ = copier.finalize()?;\n    p.finish();", new="    _ = copier.finalize();\n    p.finish();"),
+]
